@@ -48,6 +48,7 @@ InitW(cap) ==
     ovfFion |-> -1,        \* bytes in the kernel queue at the first observation after the overflow (queue full)
     room    |-> 0,         \* lower bound on the free slots of the kernel queue since then (from observed FIONREAD)
     readded |-> {},
+    lastWL  |-> {}, wlValid |-> FALSE,    \* the last WatchList taken at quiescence since the last receive (unbuffered Watchers)
     uoInos  |-> {},        \* watched inodes whose path was unlinked while something keeps them alive (no DELETE_SELF yet)
     recursive |-> FALSE,   \* a recursive watch was added (C19)        \* paths added again after their watch ended or was re-pointed
     cap     |-> cap,
@@ -213,9 +214,23 @@ MovesBetween(ws, x) ==
 MissingFrom(ws, x) == IF "manymoves" \in ws.flags \/ MovesBetween(ws, x) >= 10
                       THEN "renamed_from_missing:more_than_ten_concurrent_moves" ELSE "renamed_from_missing"
 
-Consume(ws, v, j) ==
-  LET x  == ws.exp[j]
-      w1 == PassOver(ws, j)
+\* When the reader is parked sending the event of record s, it has handled every record up to s: a WatchList taken
+\* at such a quiescent moment (unbuffered channel) must no longer show a watch whose end record is s or earlier.
+\* The deduction is made when that event is finally received.
+CheckLastWL(ws, seq) ==
+  IF ~ws.wlValid THEN ws
+  ELSE LET ended == {ws.uw[i].path : i \in {k \in DOMAIN ws.uw : ws.uw[k].st = "ending" /\ ws.uw[k].endSeq <= seq}}
+           w1 == [ws EXCEPT !.wlValid = FALSE] IN
+       IF ws.lastWL \cap ended # {} THEN Bad(w1, {"C04", "C09"}, "watchlist_listed_ended_watch") ELSE w1
+
+Consume(ws0, v, j) ==
+  LET x  == ws0.exp[j]
+      ws == CheckLastWL(ws0, x.seq)
+      seg == SubSeq(ws.exp, ws.eh + 1, j - 1)
+      \* a Create that overtakes the Rename half of its own move breaks "Rename immediately followed by Create"
+      overtook == HasBit(x.op, OpCreate) /\ x.ck # 0 /\ \E k \in 1..Len(seg) : seg[k].min = 1 /\ seg[k].ck = x.ck /\ HasBit(seg[k].op, OpRename)
+      w0 == IF overtook THEN Bad(ws, {"C03", "C01"}, "create_before_its_rename") ELSE ws
+      w1 == PassOver(w0, j)
       \* the old name is owed only if the Rename half of the same move was delivered (it may have been dropped
       \* legitimately together with its watch)
       w2 == IF v.from # <<>> /\ v.from # x.from THEN Bad(w1, {"C11"}, "renamed_from_wrong")
@@ -295,7 +310,7 @@ Settle(ws) ==
             THEN Bad(w1, {"C01", "C10"}, "overflow_not_reported") ELSE w1
       G  == {i \in DOMAIN ws.uw : ws.uw[i].st = "ending"}
   IN [w2 EXCEPT !.exp = <<>>, !.eh = 0, !.mq = <<>>, !.bag = <<>>, !.skipped = <<>>, !.last = NoRec, !.nq = 0, !.ovf = FALSE,
-                !.dropped = FALSE, !.gotOvf = 0, !.uw = Without(@, G), !.flags = {}, !.seenCk = {}, !.ovfFion = -1, !.room = 0, !.fromSeqs = <<>>]
+                !.dropped = FALSE, !.gotOvf = 0, !.uw = Without(@, G), !.flags = {}, !.seenCk = {}, !.ovfFion = -1, !.room = 0, !.fromSeqs = <<>>, !.wlValid = FALSE]
 
 ---------------------------------------------------------------------------
 (* API calls. *)
@@ -400,7 +415,8 @@ CheckWL(ws, wl, wlnil) ==
             THEN Bad(w2, {"C04"} \cup (IF (set \ allP) \cap ws.gonePaths # {} THEN {"C09"} ELSE {}), "watchlist_extra") ELSE w2
       U  == {j \in DOMAIN ws.uw : ws.uw[j].st = "unsure"}
       Ugone == {j \in U : ws.uw[j].path \notin set}
-  IN [w3 EXCEPT !.uw = [j \in (DOMAIN @) \ Ugone |-> IF j \in U THEN [@[j] EXCEPT !.st = "live"] ELSE @[j]]]
+  IN [w3 EXCEPT !.uw = [j \in (DOMAIN @) \ Ugone |-> IF j \in U THEN [@[j] EXCEPT !.st = "live"] ELSE @[j]],
+                !.lastWL = set, !.wlValid = (ws.cap <= 0)]
 
 IdealClose(ws, ret) ==
   LET w1 == IF ret = "ok" THEN ws ELSE Bad(ws, {"C06", "C05"}, "close_returned:" \o ret) IN
